@@ -13,11 +13,14 @@ func init() {
 	register(&Prop{
 		ID:        "C36",
 		Level:     "other",
-		Technique: "dominating-guard bounds and allocation-size proof over the sr header decoders; writer/reader constant agreement (magic byte, big-endian ID, zero shortcut, varint kind); decision-site rules in Serde.decodeFind",
+		Technique: "dominating-guard bounds and allocation-size proof over the sr header decoders; writer/reader constant agreement (magic byte, big-endian ID, zero shortcut, varint kind); decision-site rules in Serde.decodeFind; defer-aware happens-before ordering of the type-table delete/insert in Serde.Register; dominating non-nil guard facts for reflect constructors and codec function fields; must-assign path search in DecodeNew",
 		Explanation: "(1) every index, slice, binary.BigEndian access and make() size in ConfluentHeader.DecodeID/UpdateID/DecodeIndex, bReader.ReadByte and Serde.decodeFind/Decode/DecodeNew is proven in bounds from dominating guards; the index-count allocation must be bounded by the remaining input or a constant on every path (never panics, bounded memory); " +
 			"(2) writer/reader agreement: AppendEncode emits magic byte 0 then the ID as four bytes with descending shifts 24,16,8,0 and DecodeID requires b[0]==0 (else ErrBadHeader), reads binary.BigEndian.Uint32(b[1:5]) and returns b[5:]; the single-zero shortcut is emitted exactly for index == [0] and decoded from count 0 to [0]; both sides use the signed varint routines for count and indices; a negative count is rejected; " +
-			"(3) Serde.decodeFind indexes only maps with decoded values, returns ErrNotRegistered when the entry does not exist or has no decoder, and propagates DecodeID/DecodeIndex errors before using their results; Decode/DecodeNew return decodeFind's error before calling the decoder.",
-		NotDecided: "round-trip equality through user-supplied encode/decode functions (value-level); custom SerdeHeader implementations.",
+			"(3) Serde.decodeFind indexes only maps with decoded values, returns ErrNotRegistered when the entry does not exist or has no decoder, and propagates DecodeID/DecodeIndex errors before using their results; Decode/DecodeNew return decodeFind's error before calling the decoder; " +
+			"(4) Serde.Register (rule sr-register-table-order): in the cloned type table the delete of the previous registration's type (<node>.typeof under <node>.exists) can never execute after the insert of the new registration (key reflect.TypeOf(v)); the order is decided on the CFG with directly deferred closures placed at function exit in reverse registration order, a delete after the insert is tolerated only under a `removed key != inserted key` guard; every write to the inserted tserde variable precedes the insert (the table holds the final id/index/codec); " +
+			"(5) rule sr-reflect-type-nonnil: every reflect.New/Zero/MakeSlice/... call with a reflect.Type argument and every reflect.Type method call on a tserde.typeof value in pkg/sr is dominated by the branch fact `X != nil` (Register(id, nil, ...) records a nil type); rule sr-codec-call-nonnil: every call through tserde.gen/encode/appendEncode is dominated by a non-nil test of that field (one propositional step !(A&&B), B => !A is applied), tserde.decode is called only on the entry returned by decodeFind; local aliases of the fields (gen, typ := t.gen, t.typeof) are followed; " +
+			"(6) rule sr-decodenew-instantiate: the decoder's destination in DecodeNew is assigned on every path reaching t.decode, only from t.gen() or reflect.New(t.typeof).Interface(), both sources are present, and ErrNotRegistered is returned exactly on an arm where gen == nil and typeof == nil (and such an arm exists).",
+		NotDecided: "round-trip equality through user-supplied encode/decode functions (value-level); custom SerdeHeader implementations; Register's ID-tree clone (tserdeMapClone, subindexDepth bookkeeping) beyond the ordering/finality of the type-table update; inserts or deletes of the type table inside closures that are not directly deferred literals are reported undecided; concurrent Register/Encode interleavings (the copy-on-write publication is assumed atomic).",
 		Run:        runC36,
 	})
 }
@@ -290,6 +293,7 @@ func runC36(c *Ctx) {
 			c.Check(noErr, "sr-decode-find", key+"#decode-after-find", n.Pos(), m, "", "decoder is invoked without checking decodeFind's error")
 		}
 	}
+	c36round3(c, m)
 }
 
 // enclosingBlock returns the innermost block statement containing n directly.
